@@ -354,7 +354,7 @@ class Graph:
         return ' -> '.join(out)
 
     # ------------------------------------------------------------------ generic forward dataflow
-    def forward(self, init, transfer, meet, entry_state=None, edge_transfer=None):
+    def forward(self, init, transfer, meet, entry_state=None, edge_transfer=None, skip_edge=None):
         """Worklist forward dataflow. States are frozensets (or any hashable comparable value).
         transfer(point, in_state) -> out_state ; meet(list of states) -> state.
         edge_transfer(p, q, label, state) -> state (optional).
@@ -375,6 +375,8 @@ class Graph:
                 raise RuntimeError('dataflow did not converge')
             ins = []
             for (q, lab) in p.pred:
+                if skip_edge is not None and skip_edge(q, p, lab):
+                    continue
                 if q.id in OUT:
                     st = OUT[q.id]
                     if edge_transfer is not None:
